@@ -165,6 +165,7 @@ def focused(tier):
                        {"A": klass([ARR, None, None], srv, route=rt)}, K=K, T=10.0, D=(4 if tier == "quick" else 6), features=["routing"]))
     out += noserver_upstream_block(tier)
     out += sched_preempt_two_upstream(tier)
+    out += sched_preempt_chain(tier)
     return out
 
 
